@@ -43,6 +43,13 @@ pub fn any_id() -> Identifier<Toy251> {
         Err(_) => unreachable!(),
     }
 }
+/// Identifier from a (symbolic or concrete) non-zero scalar.
+pub fn id_of(s: S) -> Identifier<Toy251> {
+    match Identifier::<Toy251>::new(s) {
+        Ok(i) => i,
+        Err(_) => unreachable!(),
+    }
+}
 /// Concrete identifier k (1..=250).
 pub fn id(k: u8) -> Identifier<Toy251> {
     match Identifier::<Toy251>::new(S(k)) {
